@@ -44,6 +44,7 @@ var atOnceTags = []struct{ prefix, props string }{
 	{"fr arithmetic", "C15"},
 	{"Transcript", "C14"},
 	{"Element.SetBytes", "C06 C09 C11 C17"},
+	{"fp.SqrtPrecomp", "C06 C17"},
 	{"common.ReadPoint", "C06 C10"},
 	{"ipa.NewPrecomputedWeights", "C18"},
 	{"DivideOnDomain", "C18"},
